@@ -321,18 +321,32 @@ class Engine(Evaluator):
         return eff, [(j, w) for j, w, _ in written]
 
     def _upsert_update(self, ts, action, conflict_rows, newvals, guard, sc):
+        """ON CONFLICT DO UPDATE SET ... [WHERE ...]: an UPDATE of the conflicting row, with its
+        row constraints and its UPDATE triggers."""
         assigns = [k for k in action.children if isinstance(k, lark.Tree) and D(k) == "assignment"]
+        wc = next((k for k in action.children if isinstance(k, lark.Tree) and D(k) == "where_clause"), None)
+        assigned = {str(a.children[0]) for a in assigns}
+        affected = []
         for j, c in conflict_rows:
             g = bAnd(guard, c)
             if g is False:
                 continue
             old = ts.rows[j]
             rsc = sc.with_binding(ts.table.name, old.vals).with_binding("excluded", newvals)
+            if wc is not None:
+                g = bAnd(g, truth(self.expr(wc.children[0], rsc)))
+                if g is False:
+                    continue
             upd = dict(old.vals)
             for a in assigns:
                 col = str(a.children[0])
-                upd[col] = v_ite(self.ctx, g, self.expr(a.children[1], rsc), old.vals[col])
+                nv = _coerce_col(ts.table.col(col), self.expr(a.children[1], rsc))
+                upd[col] = v_ite(self.ctx, g, nv, old.vals[col])
             ts.rows[j] = Row(old.present, upd)
+            affected.append((j, g, old.vals, upd))
+        for j, g, oldv, newv in affected:
+            self._row_constraints(ts, newv, g, assigned, sc)
+        self.fire(ts.table.name, "update", assigned, [(g, oldv, newv) for j, g, oldv, newv in affected], sc)
 
     # ------------------------------------------------------------------------------------------
     def _row_constraints(self, ts: TableState, rowvals: dict, guard, touched: set, sc):
